@@ -1,5 +1,16 @@
 """C20 — Scrollable views show the right slice and scrollbars reflect the position.
-Spec: spec/Scrollable.tla over spec/ScrollableOps.tla; trace spec: spec/ScrollableTrace.tla."""
+Spec: spec/Scrollable.tla over spec/ScrollableOps.tla; trace spec: spec/ScrollableTrace.tla.
+
+Driver families (all judged by TLC through ScrollableTrace):
+  * sweep: every (total, h, p) for the bar geometry;
+  * exhaustive two-step histories on a bare Scrollable;
+  * "fits, then stops fitting": keys while the content fits, renderings, then the view shrinks / the content grows;
+  * input widths: content that fits / does not fit under every bar option, every key and mouse event, sizes recorded
+    at the wrapped widget (render, keypress, mouse_event);
+  * seeded random histories over probe / fixed / Text / wrapped Text / multi-line Edit / Pile, with and without a bar,
+    eager (render after every step) and lazy (several keys / positions between renderings);
+  * ListBox under ScrollBar: walker changes and items that change their height in place, the model's own content height.
+"""
 from __future__ import annotations
 
 import json
@@ -9,13 +20,18 @@ from .. import tlc
 
 KEYS = ["up", "down", "page up", "page down", "home", "end"]
 THUMB = "█"
+TROUGH = "|"
+CHARS = "ABCDEFGHIJKLMNOPQRSTUVWXYZabcdefghijklmnopqrstuvwxyz0123456789"
+EXACT_KINDS = ("probe", "fixed", "text", "wtext")   # no cursor in the wrapped widget: the history fixes the position
+
+
 def _label(i):
     return chr(65 + i % 26)  # one column per row label: A, B, C, ...
 
 
 def _mk(urwid):
     class Probe(urwid.Widget):
-        """Flow widget of `total` rows labelled r0, r1, ...; optionally consumes chosen keys / wheel events."""
+        """Flow widget of `total` rows labelled A, B, ...; optionally consumes chosen keys / wheel events."""
 
         _sizing = frozenset(["flow"])
         _selectable = True
@@ -24,24 +40,19 @@ def _mk(urwid):
             super().__init__()
             self.total = total
             self.eat = set(eat)
-            self.seen_cols = None
-            self.last_ret = "?"
 
         def rows(self, size, focus=False):
             return self.total
 
         def render(self, size, focus=False):
             (cols,) = size
-            self.seen_cols = cols
             return urwid.TextCanvas([_label(i).ljust(cols)[:cols].encode() for i in range(self.total)], maxcol=cols)
 
         def keypress(self, size, key):
-            self.last_ret = None if key in self.eat else key
-            return self.last_ret
+            return None if key in self.eat else key
 
         def mouse_event(self, size, event, button, col, row, focus):
-            self.last_ret = True if ("wheel" in self.eat and button in (4, 5)) else False
-            return self.last_ret
+            return bool("wheel" in self.eat and button in (4, 5))
 
     class Fixed(urwid.Widget):
         _sizing = frozenset(["fixed"])
@@ -50,7 +61,6 @@ def _mk(urwid):
             super().__init__()
             self.total = total
             self.cols = cols
-            self.seen_cols = cols
 
         def pack(self, size=(), focus=False):
             return (self.cols, self.total)
@@ -61,209 +71,520 @@ def _mk(urwid):
     return Probe, Fixed
 
 
-def project(canv, cw, barw, side):
-    """Canvas -> (row numbers, bar parts or None).  Bar = columns outside the child's cw columns."""
-    rows = []
-    bar = []
-    for line in canv.text:
-        t = line.decode("utf-8")
-        if barw:
-            body, b = (t[:cw], t[cw:]) if side == "right" else (t[barw:], t[:barw])
-            bar.append(b)
+def _spy(widget, log, level):
+    """Record the size argument (and the result) of every render / keypress / mouse_event call the widget receives."""
+    for name in ("render", "keypress", "mouse_event"):
+        if hasattr(widget, name):
+            orig = getattr(widget, name)
+
+            def wrap(size, *a, _o=orig, _n=name, **k):
+                rec = {"fn": _n, "level": level, "size": [int(x) for x in size], "ret": "?"}
+                if _n == "mouse_event":
+                    rec["pos"] = [int(a[2]), int(a[3])]      # (event, button, col, row, focus)
+                log.append(rec)
+                rec["ret"] = _o(size, *a, **k)
+                return rec["ret"]
+
+            setattr(widget, name, wrap)
+
+
+def _calls(log, fn):
+    box = [[c["size"][0], c["size"][1]] for c in log if c["level"] == "box" and c["fn"] == fn and len(c["size"]) == 2]
+    inner = [c["size"][0] for c in log if c["level"] == "inner" and c["fn"] == fn and len(c["size"]) == 1]
+    rets = [c["ret"] for c in log if c["level"] == "inner" and c["fn"] == fn]
+    return box, inner, rets
+
+
+def _positions(log):
+    """(col, row) the wrapped widgets received with mouse events: ScrollBar's wrapped widget, Scrollable's wrapped widget."""
+    return ([c["pos"] for c in log if c["level"] == "box" and c["fn"] == "mouse_event"],
+            [c["pos"] for c in log if c["level"] == "inner" and c["fn"] == "mouse_event"])
+
+
+def split_bar(canv, w, barw, side):
+    """Canvas -> (content part of each line, bar drawn?, (top, thumb, bottom)).  Content never contains THUMB / TROUGH."""
+    lines = [ln.decode("utf-8") for ln in canv.text]
+    if not barw:
+        return lines, False, (0, 0, 0)
+    pairs = [(t[:w - barw], t[w - barw:]) if side == "right" else (t[barw:], t[:barw]) for t in lines]
+    isbar = [len(b) == barw and all(c in (THUMB, TROUGH) for c in b) for _, b in pairs]
+    if not any(isbar):
+        return lines, False, (0, 0, 0)
+    s = "".join("T" if set(b) == {THUMB} else ("t" if set(b) == {TROUGH} else "?") for _, b in pairs)
+    m = re.fullmatch(r"(t*)(T+)(t*)", s)
+    return [a for a, _ in pairs], True, ((len(m.group(1)), len(m.group(2)), len(m.group(3))) if m else (-1, -1, -1))
+
+
+def match_rows(view, full):
+    """Row numbers (in the wrapped widget's own full rendering) of the rows shown; -1 = blank padding."""
+    out = []
+    prev = None
+    for s in view:
+        s = s.rstrip()
+        if prev is not None and prev >= 0 and prev + 1 < len(full) and full[prev + 1] == s:
+            j = prev + 1
+        elif prev is not None and s == "":
+            j = -1
         else:
-            body = t
-        rows.append(ord(body[0]) - 65 if body and "A" <= body[0] <= "Z" else -1)
-    parts = None
-    if barw:
-        kinds = ["T" if set(b) == {THUMB} else ("t" if set(b) == {" "} else "?") for b in bar]
-        s = "".join(kinds)
-        m = re.fullmatch(r"(t*)(T+)(t*)", s)
-        parts = (len(m.group(1)), len(m.group(2)), len(m.group(3))) if m else (-1, -1, -1)
-    return rows, parts
+            cand = [i for i, f in enumerate(full) if f == s]
+            j = cand[0] if cand else (-1 if s == "" else -2)
+        out.append(j)
+        prev = j
+    return out
 
 
-def run_history(kind, total, w, h, ops, bar=None, eat=(), sweep=False):
-    """ops: ('key', k) | ('setpos', n) | ('h', n) | ('w', n) | ('total', n) | ('wheel', 4|5) | ('render',)"""
+class Subject:
+    """The wrapped widget of one history: how it is built, changed in place and read back."""
+
+    def __init__(self, urwid, kind, total, w, eat, cseed):
+        Probe, Fixed = _mk(urwid)
+        self.urwid = urwid
+        self.kind = kind
+        self.cseed = cseed
+        self.total = total
+        if kind == "probe":
+            self.widget = Probe(total, eat)
+        elif kind == "fixed":
+            self.widget = Fixed(total, max(1, w - 2))
+        elif kind == "text":
+            self.total = max(1, total)
+            self.widget = urwid.Text(self._lines(self.total))
+        elif kind == "wtext":
+            self.widget = urwid.Text(self._cells(total), wrap="any")
+        elif kind == "edit":
+            self.widget = urwid.Edit("", self._edit_text(total), multiline=True, wrap=("any", "space")[cseed % 2])
+            if cseed % 3 == 0:
+                self.widget.set_edit_pos(0)
+        elif kind == "pile":
+            self.head = urwid.Text(self._lines(max(1, total)))
+            self.widget = urwid.Pile([
+                self.head, urwid.Edit("", CHARS[14:14 + 6 + cseed % 7], wrap="any"), urwid.Text(CHARS[30:33].replace("", "\n").strip()),
+                urwid.Edit("", CHARS[36:36 + 4 + cseed % 5]), urwid.Text(CHARS[50:52])])
+            if cseed % 2:
+                self.widget.focus_position = 3
+        else:
+            raise ValueError(kind)
+
+    @staticmethod
+    def _lines(n):
+        return "\n".join(_label(i) for i in range(n))
+
+    def _cells(self, n):
+        return CHARS[:max(0, min(n * 3, len(CHARS)))]
+
+    def _edit_text(self, n):
+        # distinct characters; single blanks / line breaks at positions fixed by cseed; no empty lines
+        out = []
+        for i, c in enumerate(CHARS[:max(1, min(n * 4, len(CHARS)))]):
+            out.append(c)
+            r = (i * 7 + self.cseed) % 11
+            if r == 0 and i:
+                out.append("\n")
+            elif r in (3, 4) and i:
+                out.append(" ")
+        return "".join(out).strip()
+
+    def set_total(self, n):
+        k = self.kind
+        if k in ("probe", "fixed"):
+            self.widget.total = n
+            self.widget._invalidate()
+        elif k == "text":
+            self.total = max(1, n)
+            self.widget.set_text(self._lines(self.total))       # in place
+        elif k == "wtext":
+            self.widget.set_text(self._cells(n))
+        elif k == "edit":
+            self.widget.set_edit_text(self._edit_text(n))
+        elif k == "pile":
+            self.head.set_text(self._lines(max(1, min(n, 14))))
+
+    def observe(self, body, cw):
+        """(total rows of the wrapped widget's own full rendering, row numbers shown)."""
+        if self.kind in ("probe", "fixed", "text"):
+            total = self.widget.total if self.kind != "text" else self.total
+            return total, [ord(b[0]) - 65 if b and "A" <= b[0] <= "Z" else -1 for b in body]
+        full = [ln.decode("utf-8").rstrip() for ln in type(self.widget).render(self.widget, (cw,), True).text]
+        return len(full), match_rows(body, full)
+
+
+def run_history(kind, total, w, h, ops, bar=None, eat=(), sweep=False, lazy=False, cseed=0):
+    """ops: ('key', k) | ('setpos', n) | ('h', n) | ('w', n) | ('total', n) | ('wheel', 4|5) | ('click', col, row) | ('render',)
+    lazy: keys and positions are not followed by a rendering of their own (several may be pending at the next one)."""
     import urwid
 
     urwid.set_encoding("utf-8")
-    Probe, Fixed = _mk(urwid)
-    if kind == "fixed":
-        child = Fixed(total, max(1, w - 2))
-    else:
-        child = Probe(total, eat)
+    subj = Subject(urwid, kind, total, w, eat, cseed)
+    child = subj.widget
     sc = urwid.Scrollable(child)
+    log = []
+    _spy(child, log, "inner")
     top = sc
     barw = 0
     side = "right"
     if bar:
         barw, side = bar
-        top = urwid.ScrollBar(sc, side=side, width=barw)
+        top = urwid.ScrollBar(sc, thumb_char=THUMB, trough_char=TROUGH, side=side, width=barw)
+        _spy(sc, log, "box")
+    exact = 1 if kind in EXACT_KINDS else 0
+    common = {"hasbar": 1 if bar else 0, "barw": barw, "left": 1 if side == "left" else 0}
     ev = []
-    state = {"w": w, "h": h}
+    state = {"w": w, "h": h, "dirty": True}
 
     def render():
-        e = {"t": "render", "exc": "", "total": child.total, "h": state["h"], "w": state["w"], "hasbar": 1 if bar else 0, "barw": barw,
-             "bar": 0, "top": 0, "thumb": 0, "bottom": 0, "cw": state["w"], "rows": [], "p": 0, "sweep": 1 if sweep else 0, "judge_top": 1}
+        e = {"t": "render", "exc": "", "total": 0, "totalfull": 0, "h": state["h"], "w": state["w"], **common, "bar": 0, "top": 0, "thumb": 0,
+             "bottom": 0, "rows": [], "p": 0, "sweep": 1 if sweep else 0, "judge_top": 1, "exact": exact, "calls": [], "inner": []}
+        del log[:]
         try:
-            child.seen_cols = None
             canv = top.render((state["w"], state["h"]), True)
-            cw = child.seen_cols if child.seen_cols is not None else state["w"]
-            drawn = bool(bar) and canv.cols() == state["w"] and cw < state["w"] and kind != "fixed"
-            if bar and kind == "fixed":
-                # a fixed child does not see a width: the bar is drawn iff the body is narrower than the view
-                drawn = child.total > state["h"]
-                cw = state["w"] - barw if drawn else state["w"]
-            rows, parts = project(canv, cw if drawn else state["w"], barw if drawn else 0, side)
-            e["rows"] = rows
-            e["cw"] = cw
-            e["bar"] = 1 if drawn else 0
-            if drawn and parts:
-                e["top"], e["thumb"], e["bottom"] = parts
-            e["p"] = sc.get_scrollpos()
             if canv.rows() != state["h"] or canv.cols() != state["w"]:
                 e["exc"] = f"size{canv.cols()}x{canv.rows()}"
+            else:
+                body, drawn, parts = split_bar(canv, state["w"], barw, side)
+                e["bar"] = 1 if drawn else 0
+                e["top"], e["thumb"], e["bottom"] = parts
+                e["calls"], e["inner"], _ = _calls(log, "render")
+                e["total"], e["rows"] = subj.observe(body, state["w"] - barw if drawn else state["w"])
+                e["totalfull"] = subj.observe([], state["w"])[0] if drawn else e["total"]
+                e["p"] = sc.get_scrollpos()
         except Exception as ex:  # noqa: BLE001
             e["exc"] = type(ex).__name__
         ev.append(e)
+        state["dirty"] = False
         return e
 
     last = render()
-    for op in ops:
+    for i, op in enumerate(ops):
         size = (state["w"], state["h"])
-        try:
-            if op[0] == "key":
-                child.last_ret = "?"
+        if op[0] in ("key", "wheel", "click"):
+            eaten = kind == "probe" and (op[1] in eat if op[0] == "key" else (op[0] == "wheel" and "wheel" in eat))
+            if (op[0] != "key" or eaten) and state["dirty"]:
+                # a mouse event is an event on the screen the user sees; input the wrapped widget is configured to handle is judged
+                # against the rendering just before it
+                last = render()
+            fn = "keypress" if op[0] == "key" else "mouse_event"
+            button = 0 if op[0] == "key" else (op[1] if op[0] == "wheel" else 1)
+            name = op[1] if op[0] == "key" else f"{op[0]}{op[1]}"
+            del log[:]
+            exc = ""
+            pos = (min(op[1], size[0] - 1), min(op[2], size[1] - 1)) if op[0] == "click" else (0, 0)    # always inside the view
+            try:
+                if op[0] == "key":
+                    top.keypress(size, op[1])
+                elif op[0] == "wheel":
+                    top.mouse_event(size, "mouse press", op[1], 0, 0, True)
+                else:
+                    top.mouse_event(size, "mouse press", 1, pos[0], pos[1], True)
+            except Exception as ex:  # noqa: BLE001
+                exc = type(ex).__name__
+            box, inner, rets = _calls(log, fn)
+            handled = bool(rets) and (rets[-1] is None if op[0] == "key" else bool(rets[-1]))
+            e = {"t": "key" if op[0] == "key" else "mouse", "exc": exc, "key": name, "button": button, "reached": 0 if handled else 1,
+                 "fn": fn, **common, "calls": box, "inner": inner}
+            if op[0] != "key":
+                e["col"], e["row"] = pos
+                e["boxpos"], e["innerpos"] = _positions(log)
+            if handled and exact and not exc:
+                # the wrapped widget handled it: the rendering that follows must show the same position
                 before = last["p"]
-                top.keypress(size, op[1])
-                if getattr(child, "last_ret", "?") is None:
-                    after = render()
-                    ev.insert(len(ev) - 1, {"t": "consumed", "exc": "", "before": before, "after": after["p"], "key": op[1]})
-                    last = after
-                    continue
-                ev.append({"t": "key", "exc": "", "key": op[1]})
-            elif op[0] == "wheel":
-                child.last_ret = "?"
-                before = last["p"]
-                top.mouse_event(size, "mouse press", op[1], 0, 0, True)
-                if getattr(child, "last_ret", "?") is True:
-                    after = render()
-                    ev.insert(len(ev) - 1, {"t": "consumed", "exc": "", "before": before, "after": after["p"], "key": f"wheel{op[1]}"})
-                    last = after
-                    continue
-                ev.append({"t": "key", "exc": "", "key": f"wheel{op[1]}"})
-            elif op[0] == "setpos":
-                sc.set_scrollpos(op[1])
-            elif op[0] == "h":
-                state["h"] = op[1]
-            elif op[0] == "w":
-                state["w"] = op[1]
-            elif op[0] == "total":
-                child.total = op[1]
-                child._invalidate()
-        except Exception as ex:  # noqa: BLE001
-            ev.append({"t": "key", "exc": type(ex).__name__, "key": str(op)})
+                e["t"] = "consumed"
+                ev.append(e)
+                last = render()
+                e["before"], e["after"] = before, last["p"]
+                continue
+            ev.append(e)
+            state["dirty"] = True
+            if lazy and op[0] == "key" and i + 1 < len(ops):
+                continue
+        elif op[0] == "setpos":
+            sc.set_scrollpos(op[1])
+            ev.append({"t": "setpos", "exc": "", "v": op[1]})
+            state["dirty"] = True
+            if lazy and i + 1 < len(ops):
+                continue
+        elif op[0] == "h":
+            state["h"] = op[1]
+        elif op[0] == "w":
+            state["w"] = op[1]
+        elif op[0] == "total":
+            subj.set_total(op[1])
         last = render()
-    return {"kind": kind, "total": total, "w": w, "h": h, "ops": [list(o) for o in ops], "bar": list(bar) if bar else [], "eat": sorted(eat), "ev": ev}
+    return {"kind": kind, "total": total, "w": w, "h": h, "ops": [list(o) for o in ops], "bar": list(bar) if bar else [], "eat": sorted(eat),
+            "lazy": 1 if lazy else 0, "cseed": cseed, "ev": ev}
 
 
-def random_ops(rng, n, maxtotal, maxh, wheel):
+def random_ops(rng, n, maxtotal, maxh, mouse):
     ops = []
     for _ in range(n):
         r = rng.random()
-        if r < 0.45:
-            ops.append(("key", rng.choice(KEYS + ["a"])))
-        elif r < 0.6:
+        if r < 0.42:
+            ops.append(("key", rng.choice(KEYS + ["a", "left", "right"])))
+        elif r < 0.56:
             ops.append(("setpos", rng.randint(-maxtotal - 3, maxtotal + 3)))
-        elif r < 0.7:
+        elif r < 0.66:
             ops.append(("h", rng.randint(1, maxh)))
-        elif r < 0.78:
-            ops.append(("w", rng.randint(3, 8)))
-        elif r < 0.9:
+        elif r < 0.73:
+            ops.append(("w", rng.randint(4, 9)))
+        elif r < 0.84:
             ops.append(("total", rng.randint(0, maxtotal)))
-        elif wheel:
-            ops.append(("wheel", rng.choice([4, 5])))
+        elif r < 0.93 and mouse:
+            ops.append(("wheel", rng.choice([4, 5])) if rng.random() < 0.6 else ("click", rng.randint(0, 3), rng.randint(0, maxh - 1)))
         else:
             ops.append(("render",))
     return ops
 
 
-def listbox_bar_history(rng, n_items, h, ops):
-    """ListBox under ScrollBar: only the bar geometry clauses apply (relative scrolling API)."""
+# ---------------------------------------------------------------------------------------------------------------------
+# ListBox under ScrollBar: the content is a list of items <<wrap, n>>; the model (ScrollableTrace!SumRows) owns its height
+# ---------------------------------------------------------------------------------------------------------------------
+def listbox_history(items, w, h, ops, bar=(1, "right")):
+    """items: [typ, n]: typ 0 = Text of n lines, 1 = Text of n cells wrapped anywhere, 2 = multi-line Edit of n lines.
+    ops: ('key', k) | ('set', idx, n) (height changed IN PLACE, the walker is not told) | ('append', typ, n) | ('pop', idx)
+         | ('h', n) | ('w', n) | ('wheel', b) | ('click', col, row) | ('render',)"""
     import urwid
 
-    lb = urwid.ListBox(urwid.SimpleFocusListWalker([urwid.Text(f"r{i}") if i % 3 else urwid.Edit(f"r{i} ") for i in range(n_items)]))
-    sb = urwid.ScrollBar(lb)
+    urwid.set_encoding("utf-8")
+    barw, side = bar
+
+    def text_for(typ, n, i):
+        if typ == 1:
+            return "".join(CHARS[(i * 5 + j) % len(CHARS)] for j in range(n))
+        return "\n".join(f"{_label(i)}{j % 10}" for j in range(max(1, n)))
+
+    def build(typ, n, i):
+        if typ == 1:
+            return urwid.Text(text_for(1, n, i), wrap="any")
+        if typ == 2:
+            return urwid.Edit("", text_for(2, n, i), multiline=True)
+        return urwid.Text(text_for(0, n, i))
+
+    widgets = [build(t, n, i) for i, (t, n) in enumerate(items)]
+    walker = urwid.SimpleFocusListWalker(list(widgets))
+    lb = urwid.ListBox(walker)
+    log = []
+    _spy(lb, log, "box")
+    sb = urwid.ScrollBar(lb, thumb_char=THUMB, trough_char=TROUGH, side=side, width=barw)
+    common = {"hasbar": 1, "barw": barw, "left": 1 if side == "left" else 0}
     ev = []
-    w = 8
-    for op in [("render",), *ops]:
-        exc = ""
+    state = {"w": w, "h": h}
+
+    def model_items():
+        out = []
+        for wd in walker:
+            if isinstance(wd, urwid.Edit):
+                out.append([0, wd.edit_text.count("\n") + 1])
+            elif wd.wrap == "any":
+                out.append([1, len(wd.text)])
+            else:
+                out.append([0, wd.text.count("\n") + 1])
+        return out
+
+    def render(after="init"):
+        e = {"t": "lbrender", "exc": "", "after": after, "items": model_items(), "w": state["w"], "h": state["h"], **common, "bar": 0, "top": 0, "thumb": 0,
+             "bottom": 0, "calls": [], "cw": state["w"], "p": 0, "rmax": 0}
+        del log[:]
         try:
-            if op[0] == "key":
-                sb.keypress((w, h), op[1])
-            canv = sb.render((w, h), True)
-            t = [ln.decode("utf-8") for ln in canv.text]
-            drawn = all(set(x[-1:]) <= {THUMB, " "} for x in t) and any(x.endswith(THUMB) for x in t)
-            top = thumb = bottom = 0
-            if drawn:
-                s = "".join("T" if x.endswith(THUMB) else "t" for x in t)
-                m = re.fullmatch(r"(t*)(T+)(t*)", s)
-                top, thumb, bottom = (len(m.group(1)), len(m.group(2)), len(m.group(3))) if m else (-1, -1, -1)
+            canv = sb.render((state["w"], state["h"]), True)
+            if canv.rows() != state["h"] or canv.cols() != state["w"]:
+                e["exc"] = f"size{canv.cols()}x{canv.rows()}"
+            else:
+                _body, drawn, parts = split_bar(canv, state["w"], barw, side)
+                e["bar"] = 1 if drawn else 0
+                e["top"], e["thumb"], e["bottom"] = parts
+                e["calls"], _, _ = _calls(log, "render")
+                e["cw"] = state["w"] - barw if drawn else state["w"]
+                e["p"] = lb.get_scrollpos((e["cw"], state["h"]), True)
+                e["rmax"] = lb.rows_max((e["cw"], state["h"]), True)
         except Exception as ex:  # noqa: BLE001
-            exc = type(ex).__name__
-            drawn = False
-            top = thumb = bottom = 0
-        # rows/p are not judged for a ListBox: present them as a consistent view so only the bar clauses decide
-        ev.append({"t": "render", "exc": exc, "total": h, "h": h, "w": w, "hasbar": 0, "barw": 1, "bar": 1 if drawn else 0,
-                   "top": top, "thumb": thumb, "bottom": bottom, "cw": w, "rows": list(range(h)), "p": 0, "sweep": 0,
-                   "judge_top": 0})
-    # 'thumb leaves the top' needs the real position: use the list box's own first visible position
-    return {"kind": "listbox", "total": n_items, "w": w, "h": h, "ops": [list(o) for o in ops], "bar": [1, "right"], "eat": [], "ev": ev}
+            e["exc"] = type(ex).__name__
+        ev.append(e)
+
+    render()
+    for op in ops:
+        size = (state["w"], state["h"])
+        if op[0] in ("key", "wheel", "click"):
+            fn = "keypress" if op[0] == "key" else "mouse_event"
+            del log[:]
+            exc = ""
+            pos = (min(op[1], size[0] - 1), min(op[2], size[1] - 1)) if op[0] == "click" else (0, 0)
+            try:
+                if op[0] == "key":
+                    sb.keypress(size, op[1])
+                elif op[0] == "wheel":
+                    sb.mouse_event(size, "mouse press", op[1], 0, 0, True)
+                else:
+                    sb.mouse_event(size, "mouse press", 1, pos[0], pos[1], True)
+            except Exception as ex:  # noqa: BLE001
+                exc = type(ex).__name__
+            box, _, _ = _calls(log, fn)
+            e = {"t": "key" if op[0] == "key" else "mouse", "exc": exc, "key": str(op[1]) if op[0] == "key" else f"{op[0]}{op[1]}", "button": 0, "reached": 0, "fn": fn,
+                 **common, "calls": box, "inner": []}
+            if op[0] != "key":
+                e["col"], e["row"] = pos
+                e["boxpos"], e["innerpos"] = _positions(log)[0], []
+            ev.append(e)
+        elif op[0] == "set" and len(walker):
+            wd = walker[op[1] % len(walker)]
+            if isinstance(wd, urwid.Edit):
+                wd.set_edit_text(text_for(2, op[2], op[1]))
+            elif wd.wrap == "any":
+                wd.set_text(text_for(1, op[2], op[1]))
+            else:
+                wd.set_text(text_for(0, op[2], op[1]))
+        elif op[0] == "append":
+            walker.append(build(op[1], op[2], len(walker) + 7))
+        elif op[0] == "pop" and len(walker):
+            del walker[op[1] % len(walker)]
+        elif op[0] == "h":
+            state["h"] = op[1]
+        elif op[0] == "w":
+            state["w"] = op[1]
+        render(op[0])
+    return {"kind": "listbox", "total": 0, "items": [list(i) for i in items], "w": w, "h": h, "ops": [list(o) for o in ops], "bar": list(bar),
+            "eat": [], "lazy": 0, "cseed": 0, "ev": ev}
 
 
-MC_CFG = """CONSTANTS MaxTotal = {t} MaxH = {h} Depth = {d}
+def random_lb(rng, quick):
+    h = rng.randint(1, 6)
+    w = rng.randint(6, 10)       # at least 3 columns beside the widest bar: the two-cell lines (plus the Edit cursor) never wrap
+    relative = rng.random() < 0.2
+    n_items = rng.randint(3 * h + 1, 3 * h + 6) if relative else rng.randint(0, min(3 * h, 7))
+    items = []
+    for _ in range(n_items):
+        typ = rng.choice([0, 0, 1, 2])
+        items.append([typ, rng.randint(0, 14) if typ == 1 else rng.randint(1, 3)])
+    ops = []
+    for _ in range(rng.randint(2, 9 if quick else 14)):
+        r = rng.random()
+        if r < 0.3:
+            ops.append(("key", rng.choice(["down", "up", "page down", "page up", "home", "end", "enter"])))     # "enter" splits a line of a multi-line Edit: one more row, in place
+        elif r < 0.62:
+            typn = rng.choice([1, 1, 2, 3, 5, 8, 12, 20])
+            ops.append(("set", rng.randint(0, 9), typn))
+        elif r < 0.7:
+            ops.append(("append", rng.choice([0, 1, 2]), rng.randint(1, 6)))
+        elif r < 0.76:
+            ops.append(("pop", rng.randint(0, 9)))
+        elif r < 0.82:
+            ops.append(("h", rng.randint(1, 6)))
+        elif r < 0.86:
+            ops.append(("w", rng.randint(6, 10)))
+        elif r < 0.92:
+            ops.append(("wheel", rng.choice([4, 5])) if rng.random() < 0.5 else ("click", rng.randint(0, 3), rng.randint(0, h - 1)))
+        else:
+            ops.append(("render",))
+    return listbox_history(items, w, h, ops, bar=rng.choice([(1, "right"), (1, "right"), (2, "left"), (3, "right")]))
+
+
+MC_CFG = """CONSTANTS MaxTotal = {t} MaxH = {h} Depth = {d} W = 6 Sticky = {s}
 SPECIFICATION Spec
 INVARIANT AfterRender
+INVARIANT ClampOnly
+INVARIANT BarState
+INVARIANT DeliveredWidth
+INVARIANT OrdersAgreeInRange
 INVARIANT GeometrySatisfiable
 CHECK_DEADLOCK FALSE
 """
+
+
+SOFT = "mouse_position_relative_to_wrapped_widget"   # beyond the sentences of C20: DIVERGENCE, and the rest of the history is still judged
+
+
+def _validate(chk, name, traces, **kw):
+    for tr in traces:
+        tr.setdefault("nopos", 0)
+    res = tlc.validate("ScrollableTrace", traces, **kw)
+    chk.add_tv(name, res)
+    again = sorted({ti for ti, _l, why in res.rejects if why == SOFT})
+    _handle(chk, traces, res)
+    if again:
+        sub = [dict(traces[ti], nopos=1) for ti in again]
+        res2 = tlc.validate("ScrollableTrace", sub, **kw)
+        chk.add_tv(name + "_without_mouse_position", res2)
+        _handle(chk, sub, res2)
 
 
 def _handle(chk, traces, res):
     for ti, l, why in res.rejects:
         tr = traces[ti]
         e = tr["ev"][l - 1]
-        sig = {"kind": tr["kind"], "event": e["t"], "exc": e.get("exc", ""), "h": e.get("h", 0), "bar": e.get("bar", 0),
-               "fits": int(e.get("total", 0) <= e.get("h", 0)) if e["t"] == "render" else -1}
-        chk.reject(f"C20.{why}", sig, {"kind": tr["kind"], "total": tr["total"], "w": tr["w"], "h": tr["h"], "ops": tr["ops"][:l],
-                                       "bar": tr["bar"], "eat": tr["eat"], "observed": e})
+        if why == SOFT:
+            chk.divergence(SOFT, {"kind": tr["kind"], "bar": tr["bar"], "w": tr["w"], "h": tr["h"], "observed": {k: e[k] for k in ("col", "row", "boxpos", "innerpos") if k in e}})
+            continue
+        isr = e["t"] in ("render", "lbrender")
+        onscreen = [x for x in tr["ev"][:l - 1] if x["t"] in ("render", "lbrender")]
+        sig = {"side": (tr["bar"][1] if tr["bar"] else ""), "bar_on_screen": onscreen[-1]["bar"] if onscreen else 0,
+               "kind": tr["kind"], "event": e["t"], "exc": e.get("exc", ""), "h": e.get("h", 0), "bar": e.get("bar", 0),
+               "fits": int(e.get("total", 0) <= e.get("h", 0)) if e["t"] == "render" else -1, "hasbar": e.get("hasbar", 0) if isr else -1}
+        rp = {k: tr[k] for k in ("kind", "total", "w", "h", "bar", "eat", "lazy", "cseed")}
+        rp["ops"] = tr["ops"]       # the whole history (events do not map one-to-one to ops); the verdict names the event
+        if tr["kind"] == "listbox":
+            rp["items"] = tr["items"]
+        rp["observed"] = e
+        rp["event_index"] = l
+        chk.reject(f"C20.{why}", sig, rp)
 
 
-def run(chk):
-    quick = chk.tier == "quick"
+def _vacuity_counts(traces):
+    """Python only COUNTS what the generated histories exercised (no verdicts)."""
+    kinds = {}
+    nontriv = set()
+
+    def bump(k):
+        kinds[k] = kinds.get(k, 0) + 1
+
+    for t in traces:
+        lastr = None
+        quiet = True
+        nren = 0
+        latent = False        # a scroll key reached the Scrollable while the content fitted
+        for e in t["ev"]:
+            k = f"{t['kind']}.{e['t']}" + (".bar" if e.get("bar") else "")
+            bump(k)
+            if e["t"] == "render":
+                if e.get("p", 0) > 0:
+                    nontriv.add((t["kind"], e["total"], e["h"], e["p"], e.get("bar", 0)))
+                fits = e["total"] <= e["h"]
+                if lastr is not None and quiet and e["exact"]:
+                    bump("quiet_render")
+                    if lastr["total"] <= lastr["h"] and not fits:
+                        bump("quiet_render.fit_to_overflow")
+                        if latent:
+                            bump("quiet_render.fit_to_overflow.after_key_while_fitting")
+                if not fits:
+                    latent = False
+                if t.get("lazy") and not quiet:
+                    bump("lazy_render")
+                lastr, quiet = e, True
+                nren += 1
+            elif e["t"] == "lbrender":
+                exactrows = len(e["items"]) <= 3 * e["h"]
+                inplace = e["after"] == "set"
+                if lastr is not None and inplace and exactrows and nren >= 2 and e["w"] == lastr["w"] and e["h"] == lastr["h"] and not e["exc"]:
+                    bump("listbox.inplace_change.same_size")
+                    if e["bar"] != lastr["bar"]:
+                        bump("listbox.inplace_change.bar_appears_or_goes")
+                if not exactrows:
+                    bump("listbox.relative")
+                lastr = e
+                nren += 1
+            elif e["t"] in ("key", "mouse", "consumed") and e.get("hasbar") and e.get("calls"):
+                if e["fn"] == "mouse_event" and e["key"].startswith("click") and lastr and lastr["bar"]:
+                    bump("sb.click.bar_" + ("left" if e["left"] else "right"))
+                bump(f"sb.{e['fn']}." + ("bar" if lastr and lastr["bar"] else "nobar"))
+                if e["inner"]:
+                    bump(f"sb.{e['fn']}.reaches_flow_widget." + ("bar" if lastr and lastr["bar"] else "nobar"))
+            if e["t"] in ("key", "mouse", "setpos"):
+                quiet = False
+                if e["t"] == "key" and e.get("reached") and e["key"] in KEYS and lastr is not None and t["kind"] != "listbox" \
+                        and lastr["total"] <= lastr["h"]:
+                    latent = True
+    return kinds, nontriv
+
+
+def generate(chk, quick):
     rng = chk.rng
-    r = tlc.mc("Scrollable", MC_CFG.format(t=6 if quick else 8, h=4 if quick else 5, d=5 if quick else 6), timeout=2400, workers=8)
-    chk.add_mc("MC_Scrollable", r)
-    if not r.ok:
-        chk.reject("C20.model." + str(r.violated), {"model": "Scrollable"}, {"tlc_trace": r.trace[-5:]})
-    # ---- unbounded: Apalache discharges an inductive invariant of the position state machine for ALL integers (ScrollableInd.tla) ----
-    import concurrent.futures as cf
-
-    obligations = [("base", "Init", "IndInv", 0, "NoError"), ("step", "IndInit", "IndInv", 1, "NoError"), ("implies_safe", "IndInit", "Safe", 0, "NoError")]
-    if not quick:
-        obligations.append(("step_refutes_too_strong", "IndInit", "NeverAtEnd", 1, "Error"))
-    with cf.ThreadPoolExecutor(len(obligations)) as ex:
-        futs = [(ob, ex.submit(tlc.apalache, "ScrollableInd", ob[1], ob[2], ob[3], 240)) for ob in obligations]
-        apa = []
-        for ob, f in futs:
-            res = f.result()
-            res["obligation"], res["expected"] = ob[0], ob[4]
-            apa.append(res)
-            if res["outcome"] == "unavailable":
-                chk.vacuity.append("apalache." + ob[0] + " did not run")
-            elif res["outcome"] != ob[4]:
-                chk.reject("C20.model.apalache." + ob[0], {"model": "ScrollableInd", "outcome": res["outcome"]}, {"apalache": res})
-    chk.cov["apalache_inductive"] = apa
     traces = []
     # ---- spec -> code: every (total, h, p) for the thumb geometry (sweep p upwards: monotonicity) ----
     maxt, maxh = (9, 6) if quick else (14, 9)
@@ -279,55 +600,122 @@ def run(chk):
             for a in basic:
                 for b in basic:
                     traces.append(run_history("probe", total, 6, h, [a, b]))
-    # ---- seeded random histories: kinds x bar x consumption ----
+    # ---- fits, then stops fitting: keys pressed while everything is visible, renderings, then the view shrinks / the content grows
+    bars = (None, (1, "right"), (2, "left"))
+    for kind in ("probe", "text", "fixed", "wtext") if quick else ("probe", "text", "fixed", "wtext", "edit"):
+        for total in (1, 2, 3) if quick else (1, 2, 3, 5):
+            for hfit in (total, total + 2):
+                for keys in [[k] for k in KEYS] + ([["down", "down"], ["page down", "up"]] if not quick else []):
+                    for extra in (0, 1, 2) if not quick else (0, 1):
+                        for change in (("h", 1), ("total", hfit + 1), ("total", hfit + 4)) + ((("h", max(1, total - 1)),) if total > 2 else ()):
+                            bar = bars[len(traces) % 3]
+                            n = total if kind != "wtext" else 1
+                            ops = [("key", k) for k in keys] + [("render",)] * extra + [change, ("render",)]
+                            if kind == "wtext" and change[0] == "total":
+                                ops[-2] = ("total", change[1] * 3)
+                            traces.append(run_history(kind, n, 7, hfit if kind != "wtext" else hfit + 1, ops, bar=bar, lazy=len(keys) > 1))
+    # ---- widths handed to the wrapped widget: content fits / does not fit x bar options x every kind of input ----
+    inputs = [("key", k) for k in KEYS + ["a", "left", "right"]] + [("wheel", 4), ("wheel", 5), ("click", 0, 0), ("click", 2, 1), ("click", 4, 0)]
+    for kind in ("probe", "edit", "pile", "text"):
+        for bar in ((1, "right"), (2, "left"), (3, "right")):
+            for total, h in ((2, 6), (6, 2)) if kind != "pile" else ((1, 12), (3, 3)):
+                for cseed in (0, 1) if quick else (0, 1, 2, 3, 4, 5):
+                    for a in inputs:
+                        b = inputs[(len(traces) * 7 + cseed) % len(inputs)]
+                        traces.append(run_history(kind, total, 9, h, [a, b], bar=bar, cseed=cseed))
+    # ---- seeded random histories: kinds x bar x consumption x lazy ----
     n_rand = 1500 if quick else 60000
+    kinds = ["probe", "probe", "fixed", "text", "wtext", "edit", "pile"]
     for i in range(n_rand):
-        kind = ["probe", "probe", "fixed"][i % 3]
-        bar = [None, (1, "right"), (2, "left"), (1, "left")][(i // 3) % 4]
+        kind = kinds[i % len(kinds)]
+        bar = [None, (1, "right"), (2, "left"), (1, "left")][(i // len(kinds)) % 4]
         eat = rng.choice([(), (), ("down", "page down"), ("up", "wheel"), ("home", "end", "wheel")]) if kind == "probe" else ()
-        traces.append(run_history(kind, rng.randint(0, 12), rng.randint(3, 8), rng.randint(1, 6),
-                                  random_ops(rng, rng.randint(3, 12), 12, 6, wheel=bar is not None), bar=bar, eat=eat))
-    for i in range(100 if quick else 3000):
-        traces.append(listbox_bar_history(rng, rng.randint(0, 12), rng.randint(1, 6),
-                                          [("key", rng.choice(["down", "up", "page down", "page up", "home", "end"])) for _ in range(rng.randint(0, 8))]))
-    res = tlc.validate("ScrollableTrace", traces, batch_events=20000, timeout=2400)
-    chk.add_tv("TV_ScrollableTrace", res)
-    _handle(chk, traces, res)
-    kinds = {}
-    nontriv = set()
-    for t in traces:
-        for e in t["ev"]:
-            k = f"{t['kind']}.{e['t']}" + (".bar" if e.get("bar") else "")
-            kinds[k] = kinds.get(k, 0) + 1
-            if e["t"] == "render" and e.get("p", 0) > 0:
-                nontriv.add((t["kind"], e["total"], e["h"], e["p"], e.get("bar", 0)))
+        lazy = rng.random() < 0.3
+        traces.append(run_history(kind, rng.randint(0, 12), rng.randint(4, 9), rng.randint(1, 6),
+                                  random_ops(rng, rng.randint(3, 12), 12, 6, mouse=True), bar=bar, eat=eat, lazy=lazy, cseed=rng.randint(0, 20)))
+    # ---- ListBox under ScrollBar ----
+    # every small list: one item grows / shrinks in place after two renderings, then back
+    for h in (2, 4):
+        for n_items in (1, 2, 3):
+            for typ in (0, 1, 2):
+                for grow in (2, 5, 9, 30):
+                    for idx in range(n_items):
+                        items = [[typ if j == idx else 0, 1] for j in range(n_items)]
+                        ops = [("render",), ("render",), ("set", idx, grow), ("render",), ("set", idx, 1), ("key", "down"), ("set", idx, grow)]
+                        traces.append(listbox_history(items, 8, h, ops, bar=((1, "right"), (2, "left"))[len(traces) % 2]))
+    for i in range(250 if quick else 6000):
+        traces.append(random_lb(rng, quick))
+    return traces
+
+
+def run(chk):
+    quick = chk.tier == "quick"
+    import concurrent.futures as cf
+
+    # ---- model checking and the unbounded proof run beside the generation of the histories ----
+    obligations = [("base", "Init", "IndInv", 0, "NoError"), ("step", "IndInit", "IndInv", 1, "NoError"), ("implies_safe", "IndInit", "Safe", 0, "NoError")]
+    if not quick:
+        obligations.append(("step_refutes_too_strong", "IndInit", "NeverAtEnd", 1, "Error"))
+    with cf.ThreadPoolExecutor(len(obligations) + 2) as ex:
+        f_mc = ex.submit(tlc.mc, "Scrollable", MC_CFG.format(t=5 if quick else 8, h=4 if quick else 5, d=5 if quick else 6, s="FALSE"),
+                         timeout=2400, workers=4 if quick else 6)
+        f_sticky = ex.submit(tlc.mc, "Scrollable", MC_CFG.format(t=3, h=3, d=4, s="TRUE"), timeout=600, workers=1)
+        futs = [(ob, ex.submit(tlc.apalache, "ScrollableInd", ob[1], ob[2], ob[3], 240)) for ob in obligations]
+        traces = generate(chk, quick)
+        r = f_mc.result()
+        chk.add_mc("MC_Scrollable", r)
+        if not r.ok:
+            chk.reject("C20.model." + str(r.violated), {"model": "Scrollable"}, {"tlc_trace": r.trace[-5:]})
+        rs = f_sticky.result()
+        chk.cov["refuted_variants"] = {"Sticky (a key pressed while the content fits stays pending)": str(rs.violated)}
+        if rs.ok or rs.violated != "ClampOnly":
+            chk.reject("C20.model.sticky_variant_not_refuted", {"model": "Scrollable", "violated": str(rs.violated)}, {"tlc_trace": rs.trace[-5:]})
+        apa = []
+        for ob, f in futs:
+            res = f.result()
+            res["obligation"], res["expected"] = ob[0], ob[4]
+            apa.append(res)
+            if res["outcome"] == "unavailable":
+                chk.vacuity.append("apalache." + ob[0] + " did not run")
+            elif res["outcome"] != ob[4]:
+                chk.reject("C20.model.apalache." + ob[0], {"model": "ScrollableInd", "outcome": res["outcome"]}, {"apalache": res})
+    chk.cov["apalache_inductive"] = apa
+    _validate(chk, "TV_ScrollableTrace", traces, batch_events=20000, timeout=2400, jobs=4)
+    kinds, nontriv = _vacuity_counts(traces)
     chk.cov["clause_counts"] = kinds
     chk.cov["distinct_nontrivial"] = len(nontriv)
-    chk.cov["rule"] = ("histories of keys / set_scrollpos / wheel / resize / content change on real Scrollable and ScrollBar objects around a row-labelled "
-                       "flow probe, a fixed widget and a ListBox; every (total, h, p) swept for the bar geometry; non-trivial = distinct "
-                       "(kind, total, h, p>0, bar) rendered")
+    chk.cov["rule"] = ("histories of keys / set_scrollpos / wheel / clicks / resize / content change on real Scrollable and ScrollBar objects around a "
+                       "row-labelled flow probe, a fixed widget, Text (explicit lines and wrapped), a multi-line Edit, a Pile of Text and Edit, and a "
+                       "ListBox whose items change height in place; every (total, h, p) swept for the bar geometry; sizes recorded at the wrapped "
+                       "widget for render / keypress / mouse_event; non-trivial = distinct (kind, total, h, p>0, bar) rendered")
     chk.cov["exhaustive"] = True
-    for v in ("probe.consumed", "probe.render.bar", "fixed.render", "listbox.render.bar"):
+    need = ["probe.consumed", "probe.render.bar", "fixed.render", "text.render.bar", "wtext.render.bar", "edit.render.bar", "pile.render.bar",
+            "listbox.lbrender.bar", "listbox.lbrender", "listbox.relative", "listbox.inplace_change.same_size",
+            "listbox.inplace_change.bar_appears_or_goes", "quiet_render.fit_to_overflow.after_key_while_fitting", "lazy_render",
+            "sb.keypress.nobar", "sb.keypress.bar", "sb.mouse_event.nobar", "sb.mouse_event.bar",
+            "sb.keypress.reaches_flow_widget.nobar", "sb.mouse_event.reaches_flow_widget.nobar", "probe.setpos", "sb.click.bar_left", "sb.click.bar_right"]
+    for v in need:
         if not kinds.get(v):
             chk.vacuity.append("driver." + v)
     chk.sample({k: traces[len(traces) // 2][k] for k in ("kind", "total", "w", "h", "ops", "bar", "eat")})
     chk.sample(traces[len(traces) // 2]["ev"][:3])
-    chk.cov["trusted_base"] = ["TLC", "row-labelled probe widgets and canvas projection in vf/props/c20.py"]
-    chk.assumptions += ["exact scroll amounts per key are not judged on the real code (the property fixes bounds and the slice, not the step); ScrollableOps!Nav documents them for the model",
-                        "ListBox under ScrollBar: only the bar-part clauses (relative scrolling API)"]
+    chk.cov["trusted_base"] = ["TLC", "row-labelled probe widgets, the size-recording wrappers and the canvas projection (bar columns, row matching "
+                               "against the wrapped widget's own rendering) in vf/props/c20.py"]
+    chk.assumptions += ["the position is predicted exactly (ScrollableOps!Shown) where the wrapped widget has no cursor (probe, fixed, Text); with an Edit "
+                        "or a Pile inside, the Scrollable also follows the cursor: bounds, slice, bar and width clauses only",
+                        "ListBox under ScrollBar: bar drawn / parts / width / rows_max against the model's own content height; the thumb position "
+                        "only in exact-row mode (len(body) <= 3 * rows)",
+                        "the view is wider than the bar (w > width option)"]
 
 
 def replay(chk, path):
     with open(path) as f:
         rp = json.load(f)["replay"]
     if rp["kind"] == "listbox":
-        import random
-        tr = listbox_bar_history(random.Random(1), rp["total"], rp["h"], [tuple(o) for o in rp["ops"]])
+        tr = listbox_history(rp["items"], rp["w"], rp["h"], [tuple(o) for o in rp["ops"]], bar=tuple(rp["bar"]))
     else:
         tr = run_history(rp["kind"], rp["total"], rp["w"], rp["h"], [tuple(o) for o in rp["ops"]], bar=tuple(rp["bar"]) if rp["bar"] else None,
-                         eat=rp["eat"])
-    res = tlc.validate("ScrollableTrace", [tr])
-    chk.add_tv("replay", res)
-    _handle(chk, [tr], res)
+                         eat=rp["eat"], lazy=bool(rp.get("lazy")), cseed=rp.get("cseed", 0))
+    _validate(chk, "replay", [tr])
     chk.sample(tr["ev"][:3])
     return chk.finish()
